@@ -905,6 +905,34 @@ func (i *inst) check(hist []string) []core.Violation {
 		}
 	}
 
+	// 2b. a lock / unlock of amount n moves the locked amount by exactly n (only
+	// judged when no timer task ran in the same block: that may unlock as well)
+	if s.Committed && len(s.Fired) == 0 {
+		var want *big.Int
+		lt := typeOrdinary
+		switch s.Kind {
+		case "propose", "vote":
+			want = new(big.Int).Set(s.Amt)
+		case "nominate", "tvote":
+			want, lt = new(big.Int).Set(s.Amt), typeTdpos
+		case "trevoke":
+			want, lt = new(big.Int).Neg(s.Amt), typeTdpos
+		case "thaw":
+			f := strings.Split(s.Ev, ":")
+			if rec, ok := new(big.Int).SetString(pre.Raw[bktProposal]["lock_"+f[1]+"_"+addrOf(s.From)], 10); ok {
+				want = rec.Neg(rec)
+			}
+		}
+		if want != nil {
+			addr := addrOf(s.From)
+			got := new(big.Int).Sub(post.bal(addr).lock(lt), pre.bal(addr).lock(lt))
+			if got.Cmp(want) != 0 {
+				add("c19.lock_delta_mismatch."+s.Kind, fmt.Sprintf("%s should move locked[%s] of %s by %s, it moved by %s (%s -> %s)", s.Ev, lt, s.From, want, got, pre.bal(addr).lock(lt), post.bal(addr).lock(lt)),
+					"delta "+want.String(), "delta "+got.String())
+			}
+		}
+	}
+
 	// 3. a committed transfer never leaves the sender below one of its locked amounts
 	if s.Kind == "xfer" && s.Committed {
 		b0, b1 := pre.bal(addrOf(s.From)), post.bal(addrOf(s.From))
